@@ -566,3 +566,37 @@ theorem C05_wrappers_reach_only_dt :
     Generated.links_segmentation_gvoronoi__distance_dt.getD 0 default
       = ("f", .other "np.zeros(bw.shape, np.double)") := by
   decide
+
+/-- **C05 (the integers the repaired kernel forms are exact doubles).** Since `8ed1f44` `dist_transform<double>` takes the
+squares `q*q`, `v[k]*v[k]`, `(q − v[k])²` in `double` (they were 32-bit `int` products: wrong from axis length 46 342 on). For
+every axis of at most `2²⁶` pixels and every sampled function with values in `[0, 2⁵²]` (the fill values of `distance` /
+`gvoronoi` and all intermediate pass values are far below), every integer the kernel computes before the one division —
+the three squares, `f[q] + q²`, `f[v] + v²`, their difference (the numerator of the abscissa) and the read-out value
+`(q − v)² + f[v]` — has magnitude below `2⁵³`, i.e. is an exactly representable double: up to that size the C arithmetic
+agrees with the unbounded integers of the model, and the only rounded operation is the division analysed in
+`C05_binary64_image_exact`. (An `int` index bounds the axis length by `2³¹`; beyond `2²⁶·√2` pixels `q²` itself stops being
+an exact double.) -/
+theorem C05_kernel_integers_below_2p53 (n q v fq fv : Int) (hn : n ≤ 2 ^ 26) (hv : 0 ≤ v) (hvq : v < q) (hq : q < n)
+    (hfq : 0 ≤ fq ∧ fq ≤ 2 ^ 52) (hfv : 0 ≤ fv ∧ fv ≤ 2 ^ 52) :
+    q * q < 2 ^ 52 ∧ v * v < 2 ^ 52 ∧ (q - v) * (q - v) < 2 ^ 52 ∧
+    fq + q * q < 2 ^ 53 ∧ fv + v * v < 2 ^ 53 ∧
+    -(2 ^ 53) < (fq + q * q) - (fv + v * v) ∧ (fq + q * q) - (fv + v * v) < 2 ^ 53 ∧
+    (q - v) * (q - v) + fv < 2 ^ 53 := by
+  have hq0 : 0 ≤ q := by omega
+  have hq26 : q ≤ 2 ^ 26 - 1 := by omega
+  have hv26 : v ≤ 2 ^ 26 - 1 := by omega
+  have hd0 : 0 ≤ q - v := by omega
+  have hd26 : q - v ≤ 2 ^ 26 - 1 := by omega
+  have sq : ∀ x : Int, 0 ≤ x → x ≤ 2 ^ 26 - 1 → x * x < 2 ^ 52 ∧ 0 ≤ x * x := by
+    intro x h0 h1
+    have := Int.mul_le_mul h1 h1 h0 (by norm_num)
+    exact ⟨by norm_num at this ⊢; omega, Int.mul_nonneg h0 h0⟩
+  obtain ⟨a1, a0⟩ := sq q hq0 hq26
+  obtain ⟨b1, b0⟩ := sq v hv hv26
+  obtain ⟨c1, c0⟩ := sq (q - v) hd0 hd26
+  norm_num at *
+  refine ⟨a1, b1, c1, ?_, ?_, ?_, ?_, ?_⟩ <;> omega
+
+/-- non-vacuity: the first axis length at which the old 32-bit products failed, and the largest covered one -/
+example : (46341 : Int) * 46341 > 2 ^ 31 - 1 ∧ (46341 : Int) * 46341 < 2 ^ 52 ∧ ((2 : Int) ^ 26 - 1) * (2 ^ 26 - 1) < 2 ^ 52 := by
+  norm_num
